@@ -288,12 +288,15 @@ for continue_on_error in (False, True):
         pass
     assert not TableGroupCacheManager.has_extra_entries()
 two_subsets = make_definition_message(B1, D1, n_subsets=2)
-try:
-    list(generate_bufr_message(decoder, two_subsets + stream1, continue_on_error=True))
-    raise SystemExit('definition with two subsets accepted')
-except AssertionError:
-    pass
-assert not TableGroupCacheManager.has_extra_entries()
+# (rebased: since "fix: a message of data category 11 that is not laid out as a table definition message
+# no longer aborts the scan with AssertionError" such a message is passed on as an ordinary message, with a
+# warning, and defines nothing; it used to stop the scan with an AssertionError)
+for continue_on_error in (False, True):
+    messages = list(generate_bufr_message(decoder, two_subsets + b'xx' + two_subsets,
+                                          continue_on_error=continue_on_error))
+    assert [(m.data_category.value, m.n_subsets.value) for m in messages] == [(11, 2), (11, 2)]
+    assert [m.serialized_bytes for m in messages] == [two_subsets, two_subsets]
+    assert not TableGroupCacheManager.has_extra_entries()
 
 # --- 4. the plain protocol: definitions, then data, with noise between the messages ----------------
 noisy = b'junk' + def1 + b'\r\n\r\n' + b'xx'.join(blobs1) + b'BUF trailing'
